@@ -13,7 +13,12 @@ import (
 	"golang.org/x/tools/go/ssa"
 )
 
-func init() { register("C12", propC12) }
+func init() {
+	register("C12", func(w *World, r *Report, tier string) {
+		propC12(w, r, tier)
+		importStateless(w, r, tier, []string{"nasConvert/MobileIdentity5GS.go", "nasConvert/PlmnId.go", "nasConvert/AmfId.go", "nasType/NAS_GUTI5G.go", "nasType/NAS_TMSI5GS.go", "nasType/NAS_MobileIdentity5GS.go"}, "identity conversions")
+	})
+}
 
 type plmnDigits struct {
 	m1, m2, m3, n1, n2, n3 []*Node // 4 nodes each (LSB first); n3 = filler 1111 for a 2-digit MNC
@@ -443,6 +448,28 @@ func checkAmfID(w *World, r *Report) {
 		if good {
 			r.OK("lay.amfid")
 		}
+	}
+	// text that is not exactly six hexadecimal characters is an error ("invalid text is reported")
+	for _, n := range []int{0, 1, 2, 4, 5, 7, 8} {
+		r.Site("err.reject.amfid")
+		itn := NewInterp(w)
+		stn := itn.NewState()
+		resn := itn.Call(w.SSAFunc(f), []Value{itn.HexString("amf", n)}, stn, 0)
+		what := fmt.Sprintf("%d hexadecimal characters", n)
+		tvn, okn := resn.(TupleV)
+		var nn *Node
+		if okn && len(tvn) == 4 {
+			nn, okn = itn.errNil(tvn[3])
+		}
+		if !okn || len(itn.Unsup) > 0 {
+			r.Fail("err.reject.amfid", fname, what+" undecided", f.Pos(), fmt.Sprintf("the error result is outside the modelled fragment: %v", itn.Unsup), nil)
+			continue
+		}
+		if !itn.EquivUnderPremise(nn, itn.T.zero) {
+			r.Fail("err.reject.amfid", fname, what, f.Pos(), "an AMF identifier text of "+what+" (not six) is accepted without an error", nil)
+			continue
+		}
+		r.OK("err.reject.amfid")
 	}
 	// inverse
 	it2 := NewInterp(w)
